@@ -34,12 +34,12 @@ package libinjection
 //@   rel upeq result
 //@   requires wfH0(h)
 //@   modifies h.pos
-//@   ensures  [C02 C15 C17] wfH0(h) && old(h.pos) <= h.pos
-//@   ensures  [C02 C15 C17] forall k in [old(h.pos), h.pos): isWS0(h.s[k])
-//@   ensures  [C02 C15 C17] result == -1 ==> h.pos == h.len
-//@   ensures  [C02 C15 C17] result != -1 ==> h.pos < h.len && result == h.s[h.pos] && !isWS0(result)
-//@   loop 1 invariant [C02 C15 C17] old(h.pos) <= h.pos && h.pos <= h.len
-//@   loop 1 invariant [C02 C15 C17] forall k in [old(h.pos), h.pos): isWS0(h.s[k])
+//@   ensures  [C02 C07 C15 C17] wfH0(h) && old(h.pos) <= h.pos
+//@   ensures  [C02 C07 C15 C17] forall k in [old(h.pos), h.pos): isWS0(h.s[k])
+//@   ensures  [C02 C07 C15 C17] result == -1 ==> h.pos == h.len
+//@   ensures  [C02 C07 C15 C17] result != -1 ==> h.pos < h.len && result == h.s[h.pos] && !isWS0(result)
+//@   loop 1 invariant [C02 C07 C15 C17] old(h.pos) <= h.pos && h.pos <= h.len
+//@   loop 1 invariant [C02 C07 C15 C17] forall k in [old(h.pos), h.pos): isWS0(h.s[k])
 //@   loop 1 decreases h.len - h.pos
 //@   cost     <= h.pos - old(h.pos)
 //@   loop 1 invariant [C09] $cost <= h.pos - old(h.pos)
@@ -492,30 +492,30 @@ package libinjection
 //@   unfold   hexVal(arr(s), off(s) + 3, off(s) + 3)
 //@   unfold   decVal(arr(s), off(s) + 2, off(s) + 3)
 //@   unfold   decVal(arr(s), off(s) + 2, off(s) + 2)
-//@   ensures  [C19] @empty len(s) == 0 ==> result0 == -1 && result1 == 0
-//@   ensures  [C19] @consumed len(s) > 0 ==> 1 <= result1 && result1 <= len(s)
-//@   ensures  [C19] @cap len(s) > 0 ==> 0 <= result0 && result0 <= 0x1000FF
-//@   ensures  [C19] @literal len(s) > 0 && (s[0] != '&' || len(s) < 3 || s[1] != '#') ==> result1 == 1 && result0 == s[0]
-//@   ensures  [C19] @hex_degenerate len(s) >= 3 && s[0] == '&' && s[1] == '#' && (s[2] == 'x' || s[2] == 'X') && (len(s) < 4 || hexDigit(s[3]) == 256) ==> result0 == '&' && result1 == 1
-//@   ensures  [C19] @hex_value len(s) >= 4 && s[0] == '&' && s[1] == '#' && (s[2] == 'x' || s[2] == 'X') && hexDigit(s[3]) != 256 && !(result0 == '&' && result1 == 1) ==>
+//@   ensures  [C07 C19] @empty len(s) == 0 ==> result0 == -1 && result1 == 0
+//@   ensures  [C07 C19] @consumed len(s) > 0 ==> 1 <= result1 && result1 <= len(s)
+//@   ensures  [C07 C19] @cap len(s) > 0 ==> 0 <= result0 && result0 <= 0x1000FF
+//@   ensures  [C07 C19] @literal len(s) > 0 && (s[0] != '&' || len(s) < 3 || s[1] != '#') ==> result1 == 1 && result0 == s[0]
+//@   ensures  [C07 C19] @hex_degenerate len(s) >= 3 && s[0] == '&' && s[1] == '#' && (s[2] == 'x' || s[2] == 'X') && (len(s) < 4 || hexDigit(s[3]) == 256) ==> result0 == '&' && result1 == 1
+//@   ensures  [C07 C19] @hex_value len(s) >= 4 && s[0] == '&' && s[1] == '#' && (s[2] == 'x' || s[2] == 'X') && hexDigit(s[3]) != 256 && !(result0 == '&' && result1 == 1) ==>
 //@                 (let m = (s[result1 - 1] == ';' ? result1 - 1 : result1) in 4 <= m && m <= len(s) &&
 //@                  (forall k in [3, m): hexDigit(s[k]) != 256) && (result1 == m && m < len(s) ==> hexDigit(s[m]) == 256 && s[m] != ';') &&
 //@                  result0 == hexVal(arr(s), off(s) + 3, off(s) + m))
-//@   ensures  [C19] @hex_overflow len(s) >= 4 && s[0] == '&' && s[1] == '#' && (s[2] == 'x' || s[2] == 'X') && hexDigit(s[3]) != 256 && result0 == '&' && result1 == 1 ==>
+//@   ensures  [C07 C19] @hex_overflow len(s) >= 4 && s[0] == '&' && s[1] == '#' && (s[2] == 'x' || s[2] == 'X') && hexDigit(s[3]) != 256 && result0 == '&' && result1 == 1 ==>
 //@                 (exists j in [5, len(s) + 1): (forall k in [3, j): hexDigit(s[k]) != 256) && hexVal(arr(s), off(s) + 3, off(s) + j) > 0x1000FF)
-//@   ensures  [C19] @dec_degenerate len(s) >= 3 && s[0] == '&' && s[1] == '#' && s[2] != 'x' && s[2] != 'X' && !isDec(s[2]) ==> result0 == '&' && result1 == 1
-//@   ensures  [C19] @dec_value len(s) >= 3 && s[0] == '&' && s[1] == '#' && isDec(s[2]) && !(result0 == '&' && result1 == 1) ==>
+//@   ensures  [C07 C19] @dec_degenerate len(s) >= 3 && s[0] == '&' && s[1] == '#' && s[2] != 'x' && s[2] != 'X' && !isDec(s[2]) ==> result0 == '&' && result1 == 1
+//@   ensures  [C07 C19] @dec_value len(s) >= 3 && s[0] == '&' && s[1] == '#' && isDec(s[2]) && !(result0 == '&' && result1 == 1) ==>
 //@                 (let m = (s[result1 - 1] == ';' ? result1 - 1 : result1) in 3 <= m && m <= len(s) &&
 //@                  (forall k in [2, m): isDec(s[k])) && (result1 == m && m < len(s) ==> !isDec(s[m]) && s[m] != ';') &&
 //@                  result0 == decVal(arr(s), off(s) + 2, off(s) + m))
-//@   ensures  [C19] @dec_overflow len(s) >= 3 && s[0] == '&' && s[1] == '#' && isDec(s[2]) && result0 == '&' && result1 == 1 ==>
+//@   ensures  [C07 C19] @dec_overflow len(s) >= 3 && s[0] == '&' && s[1] == '#' && isDec(s[2]) && result0 == '&' && result1 == 1 ==>
 //@                 (exists j in [4, len(s) + 1): (forall k in [2, j): isDec(s[k])) && decVal(arr(s), off(s) + 2, off(s) + j) > 0x1000FF)
 //@   loop 1 invariant 4 <= i && i <= length && length == len(s) && 0 <= val && val <= 0x1000FF
-//@   loop 1 invariant [C19] (forall k in [3, i): hexDigit(s[k]) != 256) && val == hexVal(arr(s), off(s) + 3, off(s) + i)
+//@   loop 1 invariant [C07 C19] (forall k in [3, i): hexDigit(s[k]) != 256) && val == hexVal(arr(s), off(s) + 3, off(s) + i)
 //@   loop 1 unfold hexVal(arr(s), off(s) + 3, off(s) + i + 1)
 //@   loop 1 decreases length - i
 //@   loop 2 invariant 3 <= i && i <= length && length == len(s) && 0 <= val && val <= 0x1000FF
-//@   loop 2 invariant [C19] (forall k in [2, i): isDec(s[k])) && val == decVal(arr(s), off(s) + 2, off(s) + i)
+//@   loop 2 invariant [C07 C19] (forall k in [2, i): isDec(s[k])) && val == decVal(arr(s), off(s) + 2, off(s) + i)
 //@   loop 2 unfold decVal(arr(s), off(s) + 2, off(s) + i + 1)
 //@   loop 2 decreases length - i
 //@   cost     <= result1 + 2 + ((len(s) >= 1 && s[0] == '&') ? firstAbs(arr(s), off(s) + 1, off(s) + len(s), '&') - (off(s) + 1) : 0)
